@@ -4,6 +4,7 @@ use crate::engine::{Ctx, Fail};
 use serde_json::Value as J;
 
 pub mod targets;
+pub mod c01;
 pub mod c02;
 pub mod c03;
 pub mod c04;
@@ -26,6 +27,7 @@ pub fn level_of(id: &str) -> &'static str {
 
 pub fn run(ctx: &Ctx) -> bool {
     match ctx.id.as_str() {
+        "C01" => c01::run(ctx),
         "C02" => c02::run(ctx),
         "C03" => c03::run(ctx),
         "C04" => c04::run(ctx),
@@ -45,6 +47,7 @@ pub fn run(ctx: &Ctx) -> bool {
 
 pub fn replay(ctx: &Ctx, id: &str, kind: &str, case: &J) -> Vec<Fail> {
     match id {
+        "C01" => c01::replay(ctx, kind, case),
         "C02" => c02::replay(ctx, kind, case),
         "C03" => c03::replay(ctx, kind, case),
         "C04" => c04::replay(ctx, kind, case),
